@@ -667,10 +667,14 @@ def window_of(name):
             "bartlett": filters.BartlettWindow, "blackman": filters.BlackmanWindow}[name]()
 
 
-def lib_signal(sig_seed, N, dt, silent_tail=False):
+def lib_signal(sig_seed, N, dt, silent_tail=False, loud=False):
     x = np.random.RandomState(sig_seed).randn(N)
     if silent_tail:
         x[(2 * N) // 5:] = 0.0
+    if loud and N:
+        # isolated loud samples (clicks): 300 is exact in every float type, its square is beyond float16's range - the
+        # computers work in double precision whatever the input's type, and the logarithm of the result fits again
+        x[:: max(1, N // 5)] = 300.0
     return x.astype(DT[dt])
 
 
@@ -688,7 +692,7 @@ def library_case_run(case):
         # `replay`, evaluates the oracle while the value is still in force and the process then ends)
         from pydrobert.speech import config
         config.LOG_FLOOR_VALUE = case["log_floor_after_ctor"]
-    x = lib_signal(case["sig_seed"], case["N"], case["dtype"], case.get("silent_tail", False))
+    x = lib_signal(case["sig_seed"], case["N"], case["dtype"], case.get("silent_tail", False), case.get("loud", False))
     x.setflags(write=False)
     full = comp.compute_full(x)
     parts, off = [], 0
@@ -730,6 +734,12 @@ def library_oracle_(ctx, n, config, floor0):
         wname = r.choice(WINDOWS)
         shift_ms = r.choice([0.5, 1.0, 2.0, 5.0, 10.0])
         dt = r.choice([64, 64, 32, 16])
+        # a fixed share of the cases: clicks in a narrow float type, energy + power + log (fixed in every parameter)
+        loud = done % 4 == 3
+        if loud:
+            dt = 16 if done % 8 == 3 else 32
+            flags = dict(include_energy=True, use_log=True, use_power=True, pad_to_nearest_power_of_two=done % 16 >= 8)
+            shift_ms = 2.0
         case = dict(computer="si", bank=kind, scale=scale, num_filts=nf, low=lo, high=hi, analytic=analytic, style=style,
                     shift_ms=shift_ms, window=wname, dtype=dt, **flags)
         try:
@@ -759,10 +769,14 @@ def library_oracle_(ctx, n, config, floor0):
         # a fixed share of the signals ends in digital silence (last 60 %): silent frames are where "floored at
         # LOG_FLOOR_VALUE" decides the stored value, in every result dtype
         silent_tail = done % 4 == 2
-        x = lib_signal(sig_seed, N, dt, silent_tail)
+        if loud:
+            N = 3 * D + 7   # several DFT blocks inside one chunk
+        x = lib_signal(sig_seed, N, dt, silent_tail, loud)
         x.setflags(write=False)
         chunks = random_chunking(r, N)
-        case.update(N=N, chunks=chunks, L=L, S=S, D=D, sig_seed=sig_seed, silent_tail=silent_tail)
+        case.update(N=N, chunks=chunks, L=L, S=S, D=D, sig_seed=sig_seed, silent_tail=silent_tail, loud=loud)
+        if loud:
+            ctx.count("loud_clicks:f%d" % dt)
         ctx.case(case, kind="lib:%s:%s:f%d" % (kind, style, dt))
         done += 1
         tags = dict(computer="si", tracer="library", style=style, bank=kind)
